@@ -74,7 +74,8 @@ class Check(CheckBase):
             "still be well-formed; "
             "(ii) narrow seam SampleHeader parse -> generalized -> WAV builder: root key x semitone x cents bytes -- quick: "
             "the three 256x256 faces through 5 boundary values of the third byte, thorough: the full 256^3 product -- mono, "
-            "and the faces again as L/R stereo pairs; loop table: loop type {0..4} x (loop_at, length, duration) corner values "
+            "and the faces again as L/R stereo pairs; L/R pairs of unequal length for every pair of lengths in {1,2,2047,2048,2049,4095,4096,"
+            "4097,6145,6146} words (AKAI; Roland: 36 pairs); loop table: loop type {0..4} x (loop_at, length, duration) corner values "
             "for 1, 2 and 8 active slots x rate {0,1,44100,65535}. Builds that raise are 'export did not succeed' (counted, "
             "not violations). non-trivial = non-default key, looped, or stereo")
     assumptions = ["cases whose build raises are outside the statement; their number is reported, and a header value that "
@@ -91,6 +92,24 @@ class Check(CheckBase):
         rc = rc if not self.quick else rc[::4]
         out += self.chunk(rc, 6)
         out.append({"origin": "c03"})
+        # L/R pairs of UNEQUAL length: every pair of lengths around the transcoder's 2048-word block (a channel that ends
+        # blocks before the other, odd left-overs)
+        lens = [1, 2, 2047, 2048, 2049, 4095, 4096, 4097, 6145, 6146]
+        pc = []
+        for nl in lens:
+            for nr in lens:
+                ml, mr = A.needed_sectors(140 + 2 * nl), A.needed_sectors(140 + 2 * nr)
+                files = [{"name": "PAD -L", "n": nl, "chain": list(range(4, 4 + ml)), "seq": 1},
+                         {"name": "PAD -R", "n": nr, "chain": list(range(4 + ml, 4 + ml + mr))[::-1], "seq": 2},
+                         {"name": "MONO", "n": 77, "chain": [4 + ml + mr], "seq": 3}]
+                pc.append({"origin": "c01", "sweep": "pairlens", "spec": {"parts": [{"vols": [{"name": "VOL", "dir": [3], "files": files}]}]}})
+        from mcv.gen import roland as R
+        for el in lens[::2] + [6146]:
+            for er in lens[1::2] + [1]:
+                smp = {0: {"name": "PAD L", "chain": [2, 3], "points": [0, 0, el - 1, 0, 9], "mode": 2, "seq": 1},
+                       1: {"name": "PAD R", "chain": [5, 4], "points": [0, 0, er - 1, 0, 9], "mode": 2, "seq": 2}}
+                pc.append({"origin": "c02", "sweep": "pairlens", "model": c02.simple_model(smp)})
+        out += self.chunk(pc, 8)
         # (ii) narrow seam
         if self.quick:
             for face in ("note-semi", "note-cents", "semi-cents"):
